@@ -1356,7 +1356,7 @@ def wl_polygon_extreme(run, rng, idx):
     kw = {by: (float(par) if idx % 2 else np.array(par)) if not shape else np.array(par)}
     if dim != 2 or idx % 2:
         kw["dimension"] = dim
-    poly = Polygon.regular_polygon(n, **kw)
+    poly = call_regular_polygon(Polygon, n, kw, idx)
     vk = np.asarray(poly.get_vertices().coords("klein"), dtype=float)
     if not mon.require(vk.shape == tuple(shape) + (n, dim), "polygon/vertices-shape",
                        "get_vertices().coords('klein') has shape %r, expected %r"
@@ -1612,7 +1612,7 @@ def wl_polygon(run, rng, idx):
     if dim != 2 or idx % 2:
         kw["dimension"] = dim
     try:
-        poly = Polygon.regular_polygon(n, **kw)
+        poly = call_regular_polygon(Polygon, n, kw, idx)
     except Exception as e:
         if shape:
             mon.fail("polygon/exception:%s/composite-parameter" % type(e).__name__,
@@ -1722,7 +1722,7 @@ def wl_polygon_sweep(run, rng, idx):
             kw = {by: par if (n + idx) % 2 else np.float64(par)}
             if dim != 2 or n % 2:
                 kw["dimension"] = dim
-            poly = Polygon.regular_polygon(n, **kw)
+            poly = call_regular_polygon(Polygon, n, kw, idx)
             vk = np.asarray(poly.get_vertices().coords("klein"), dtype=float)
             if not mon.require(vk.shape == (n, dim), "polygon/vertex-count/n-sweep",
                                "regular_polygon(%d, %s=..., dimension=%d).get_vertices() has Klein "
@@ -1855,6 +1855,27 @@ def wl_point_along_histories(run, rng, idx):
                    "length t along the transformed vector",
                    lambda w: dict(case, row=w))
         run.note_class("point_along-after-transform", d, shape)
+
+
+_CALL_STYLES = {}
+
+
+def call_regular_polygon(Polygon, n, kw, idx):
+    """regular_polygon(n, radius=None, angle=None, dimension=2): the same request
+    through keywords or through the documented positional order (the package's
+    usage notebook writes regular_polygon(5, 1.4)).  Seeded change C13-r5-3: the
+    order of `radius` and `angle` swapped in the signature."""
+    style = ("keywords", "positional", "keywords", "positional-all")[idx % 4]
+    _CALL_STYLES[style] = _CALL_STYLES.get(style, 0) + 1
+    if style == "keywords" or set(kw) - {"radius", "angle", "dimension"}:
+        return Polygon.regular_polygon(n, **kw)
+    if style == "positional":
+        if "radius" in kw:
+            rest = {k: v for k, v in kw.items() if k != "radius"}
+            return Polygon.regular_polygon(n, kw["radius"], **rest)
+        rest = {k: v for k, v in kw.items() if k != "angle"}
+        return Polygon.regular_polygon(n, None, kw["angle"], **rest)
+    return Polygon.regular_polygon(n, kw.get("radius"), kw.get("angle"), kw.get("dimension", 2))
 
 
 WORKLOADS = [
